@@ -126,7 +126,10 @@ def _prim_invert(a, b, si, kind, mi):
         return rt.SKIP
     doc = C.doc
     if kind == 0:
-        step = c01_steps.ReplaceStep(a, b, C.slices[si])
+        # structure flag from the (otherwise unused) mark index: hand-built / decoded steps may carry it
+        step = c01_steps.ReplaceStep(a, b, C.slices[si], mi % 2 == 1)
+        if mi > 1:
+            return rt.SKIP
     elif kind == 1:
         n = doc.node_at(a)
         names = sorted(n.attrs.keys()) if n is not None and n.attrs else []
